@@ -166,6 +166,15 @@ def pattern_value(p, cl, conn_name):
     if p.get('conn') and p['conn'] != conn_name:
         return MUSTNOT
     o = p.get('obj')
+    if getattr(cl.target, 'orphan', False) and o is not None and o[0] == 'idgen' and cl.target.id == o[1]:
+        # a message on an object the tool can not resolve (ill-formed history) is displayed as `type@id?`: it carries no
+        # letters, so a connection-qualified label (`B: 7c`, C14) must not select it; without the connection the
+        # documentation does not say what an id+letters atom means for it
+        return MUSTNOT if p.get('conn') else DC
+    if getattr(cl.target, 'orphan', False) and p.get('conn'):
+        # the tool shows such a message without a connection name (it can not attach the object to a connection); whether a
+        # connection-qualified matcher selects it is not decided for ill-formed histories
+        return DC
     if p.get('bare'):
         vals = [MUST if obj_value(o, cl.target) else MUSTNOT]
         for g in cl.args:
